@@ -4684,6 +4684,13 @@ class PyCdlib:
 
         child.inode.update_fp(fp, length)
 
+        if child.inode.boot_info_table is not None:
+            # The boot info table patched into a boot file describes the new
+            # contents.
+            with inode.InodeOpenData(child.inode, self.logical_block_size) as (data_fp, data_len):
+                child.inode.boot_info_table.orig_len = data_len
+                child.inode.boot_info_table.csum = self._calculate_eltorito_boot_info_table_csum(data_fp, data_len)
+
         # Remove the old size from the PVD size.
         for pvd in self.pvds:
             pvd.remove_from_space_size(child.get_data_length())
@@ -4725,6 +4732,10 @@ class PyCdlib:
             utils.copy_data(data_len, self.logical_block_size, data_fp, self._cdfp)
             utils.zero_pad(self._cdfp, data_len, self.logical_block_size)
 
+        if child.inode.boot_info_table is not None:
+            self._cdfp.seek(child.extent_location() * self.logical_block_size + 8)
+            self._cdfp.write(child.inode.boot_info_table.record())
+
         # Finally write out the directory record entry.
         # This is a little tricky because of what things mean.  First of all,
         # child.extents_to_here represents the total number of extents up to
@@ -4749,6 +4760,10 @@ class PyCdlib:
                 abs_offset = abs_extent_loc * self.logical_block_size + offset
             elif isinstance(record, udfmod.UDFFileEntry):
                 abs_offset = record.extent_location() * self.logical_block_size
+            elif isinstance(record, eltorito.EltoritoEntry):
+                # An El Torito entry holds the location of a boot file, which
+                # does not change.
+                continue
             else:
                 # This should never happen
                 raise pycdlibexception.PyCdlibInternalError('Invalid record type')
